@@ -135,7 +135,7 @@ func (e *Exec) safety(fr *Frame, st *State, cond string, kind, msg string, pos t
 	if cond == "true" {
 		return
 	}
-	if fr.recovers {
+	if e.protected(fr, st) {
 		ps := st.clone()
 		ps.reach = and(st.reach, not(cond))
 		fr.panics = append(fr.panics, ps)
@@ -742,6 +742,12 @@ func (e *Exec) instrAlloc(fr *Frame, st *State, x *ssa.Alloc) {
 		ref := e.alloc(st)
 		e.zeroObject(st, ref, t)
 		fr.regs[x] = Val{T: ref, Typ: x.Type(), NonNil: true}
+		if privateAlloc(x) {
+			// a struct-typed local whose address never leaves the function: callees cannot change it
+			for _, tg := range e.structTargets(ref, t) {
+				st.priv = append(st.priv, privBox{tg.heap, tg.ref})
+			}
+		}
 	case isArrayT(t):
 		arr := e.alloc(st)
 		at := t.Underlying().(*types.Array)
@@ -754,6 +760,9 @@ func (e *Exec) instrAlloc(fr *Frame, st *State, x *ssa.Alloc) {
 		m := e.boxHeap(t)
 		e.hset(st, m, sto(e.hget(st, m), ref, e.sc.zeroOf(t)))
 		fr.regs[x] = Val{T: ref, Typ: x.Type(), NonNil: true, Loc: &Loc{Kind: LBox, Base: ref, Typ: t}}
+		if x.Heap && !isStructT(t) && privateAlloc(x) {
+			st.priv = append(st.priv, privBox{m, ref})
+		}
 		if nt, ok := types.Unalias(t).(*types.Named); ok && nt.Obj().Pkg() != nil && nt.Obj().Pkg().Path() == "bytes" && nt.Obj().Name() == "Buffer" {
 			// new(bytes.Buffer): empty ghost FIFO
 			e.bufferMaps()
